@@ -119,13 +119,22 @@ def algebra_shard(arg):
             n += 1
             try:
                 acc = cls()
+                operands = []
                 for op, counts in enumerate(fam):
                     operand = build_set(cls, cls_name, counts, op)
+                    operands.append((operand, contents(operand)))
                     if form == "ior":
                         acc |= operand
                     else:
                         acc = acc | operand
                 got = contents(acc)
+                # combining must not disturb its operands: a result set may be combined again later (histories of merges)
+                for k_, (operand, before_) in enumerate(operands):
+                    if contents(operand) != before_:
+                        sig = f"algebra|{cls_name}|{form}|operand-mutated"
+                        if sig not in viols or len(fam) < len(viols[sig][0]):
+                            viols[sig] = (fam, f"operand {k_} changed while later operands were combined: {sorted((contents(operand) - before_).elements())[:4]} added")
+                        break
             except Exception as e:
                 kind, detail = f"exception:{type(e).__name__}", f"{type(e).__name__}: {e}"
                 got = None
@@ -369,6 +378,25 @@ def formats_job(_):
         except Exception as e:
             if not (dup and type(e).__name__ == "DuplicateToolError"):
                 viols.setdefault(f"format|detect|{label}|exception:{type(e).__name__}", f"{label}: {e}")
+    # histories of loader calls inside one process, caches NOT reset in between (the loaders memoise per file):
+    # a later combination must not see findings that an earlier combination merged into a memoised set
+    drive.reset_caches()
+    a, b, c = (write({"issues": [sonar_entry("issues", i, "OPEN")]}) for i in (0, 1, 2))
+    ref = {a: ref_sonar({"issues": [sonar_entry("issues", 0, "OPEN")]}), b: ref_sonar({"issues": [sonar_entry("issues", 1, "OPEN")]}), c: ref_sonar({"issues": [sonar_entry("issues", 2, "OPEN")]})}
+    for hist in itertools.permutations([(a, b, c), (a,), (b, a), (c, b), (b,)], 3):
+        drive.reset_caches()
+        for step, files in enumerate(hist):
+            n += 1
+            exp = sum((ref[f] for f in files), Counter())
+            try:
+                got = restrict(got_locs(process_sonar_findings(tuple(files))), {(k[0], k[1]) for k in exp})
+            except Exception as e:
+                viols.setdefault(f"format|sonar|history|exception:{type(e).__name__}", f"{type(e).__name__}: {e}")
+                break
+            if got != exp:
+                viols.setdefault("format|sonar|history|earlier-merge-leaks-into-later-one", f"step {step} of history {[len(h) for h in hist]}: extra={sorted((got - exp).elements())[:3]} lost={sorted((exp - got).elements())[:3]}")
+                break
+    drive.reset_caches()
     dd = dd_docs()
     for label, doc in dd:
         check(f"format|defectdojo|{label}|from_json", ref_dd(doc), lambda: got_locs(DefectDojoResultSet.from_json(write(doc))), label)
